@@ -6,15 +6,26 @@ from checks import spell, streams, scanner_mc
 def run(ctx):
     q = ctx.quick()
     scanner_mc.spell_mc(ctx, ordinals=True)
-    prm = dict(kind="ord", upto=2200 if q else 1000000, rlow=[0], rhigh=[0], randn=1500 if q else 0, seed=ctx.seed % 100000)
-    if not q:
-        prm["upto"] = 200000
-        prm["randn"] = 200000
-    spell.apply_conformance(ctx)
-    spell.run_kind(ctx, "C04", "Gen_Spell", prm,
-                   "ranks: every rank below %d, the last rank of the range (10^6; es/pt 1999), %d seeded ranks; x orthographic variants "
-                   "(en 3, fr 3, es 3 teen styles) x inflections (fr m/f/mp/fp, de -e/-er/-en/-es/-em, it o/a/i/e, es/pt o/a/os/as), alone and "
-                   "in a sentence; validate, rewrite and search (flag and value); every distinct phrase is non-trivial" % (prm["upto"], prm["randn"]))
+    if q:
+        prm = dict(kind="ord", upto=2200, rlow=[0], rhigh=[0], randn=1500, seed=ctx.seed % 100000)
+        spell.run_kind(ctx, "C04", "Gen_Spell", prm,
+                       "ranks: every rank below %d, the last rank of the range (10^6; es/pt 1999), %d seeded ranks; x orthographic variants "
+                       "(en 3, fr 3, es 3 teen styles) x inflections (fr m/f/mp/fp, de -e/-er/-en/-es/-em, it o/a/i/e, es/pt o/a/os/as), alone and "
+                       "in a sentence; validate, rewrite and search (flag and value); every distinct phrase is non-trivial" % (prm["upto"], prm["randn"]))
+    else:
+        # EVERY rank up to 10^6 (es/pt: 1999) in every variant and inflection, in chunks
+        chunks = []
+        for l in vlib.LANGS:
+            if l in ("es", "pt"):
+                chunks.append(dict(kind="ord", langs=[l], base=0, **{"from": 0}, upto=2000, rlow=[0], rhigh=[0], randn=0, seed=ctx.seed % 100000))
+            else:
+                step = 25000 if l == "fr" else 50000
+                chunks += [dict(kind="ord", langs=[l], base=0, **{"from": a}, upto=step + 1, rlow=[0], rhigh=[0], randn=0, seed=ctx.seed % 100000)
+                           for a in range(0, 1000000, step)]
+        prm = dict(upto=1000000, randn=0)
+        spell.run_chunks(ctx, "C04", "Gen_Spell", chunks,
+                         "EVERY rank from 1 to 10^6 (es/pt: to 1999) x orthographic variants (en 3, fr 3, es 3 teen styles) x inflections (fr m/f/mp/fp, "
+                         "de -e/-er/-en/-es/-em, it o/a/i/e, es/pt o/a/os/as), alone and in a sentence; validate, rewrite and search (flag and value)")
     ctx.extra["exhaustive_parts"] = ["every rank below %d in every language (es/pt: below 2000), variant and inflection" % prm["upto"]]
     ctx.assumptions += ["standard ordinal spelling = spec/SpellerOrd.tla", "es/pt ordinals are modelled up to 1999, the others up to 10^6"]
     return vlib.finish(ctx)
